@@ -118,6 +118,7 @@ def c11(tier, seed):
         {'line': './pargs "[$(./oe2)]" "`./oe2`"', 'files': {'pargs': PARGS, 'oe2': '#!/bin/sh\necho O\necho E-INNER >&2\n'}, 'expect_stdout': _argv(['[O]', 'O']), 'expect_stderr_contains': 'E-INNER', 'area': 'substitution:stderr-passed-on'},
         # braces in the output are text for the later range pass too
         {'line': "./pargs $(./rng) x$(./rng)y {1..2}", 'files': {'pargs': PARGS, 'rng': "#!/bin/sh\necho '{1..3}'\n"}, 'expect_stdout': _argv(['{1..3}', 'x{1..3}y', '1', '2']), 'area': 'substitution:output-with-range-braces'},
+        {'line': "X=$(./rng); ./pargs \"$X\"; Y={1..2}; ./pargs \"$Y\"", 'files': {'pargs': PARGS, 'rng': "#!/bin/sh\necho '{1..3}'\n"}, 'expect_stdout': _argv(['{1..3}']) + _argv(['{1..2}']), 'area': 'substitution:output-with-range-braces:in-an-assignment'},
         # inside a substitution the statuses are real: a function called as $(f) short-circuits and sees $? like anywhere else
         {'script': 'function f() {\n    false && echo NO\n    sh -c "exit 3"\n    echo "st=$?"\n}\n./pargs "$(f)"\n', 'files': {'pargs': PARGS}, 'expect_stdout': _argv(['st=3']), 'area': 'substitution:function-statuses'},
     ]
@@ -558,6 +559,9 @@ def c15(tier, seed):
     out = [
         {'script': './pargs "$1" "$2" "${3}" "$@"\n', 'args': ['x', 'y z'], 'files': F, 'expect_stdout_any': [_argv(['x', 'y z', '', 'x y z']), _argv(['x', 'y z', '', 'x', 'y z'])], 'area': 'script:arguments'},
         {'script': './pargs "[$1]" "[${2}]"\n', 'args': [], 'files': F, 'expect_stdout': _argv(['[]', '[]']), 'area': 'script:missing-arguments'},
+        # KNOWN FINDING (recorded, not repaired): an argument's text is pasted into the line before it is split and expanded again
+        {'script': './pargs [$1]\n', 'args': ['a;echo INJECTED'], 'files': F, 'expect_stdout': _argv(['[a;echo INJECTED]']), 'area': 'script:arguments:value-reread-as-syntax'},
+        {'script': './pargs "[$1]"\n', 'args': ['p$HOME'], 'files': F, 'expect_stdout': _argv(['[p$HOME]']), 'area': 'script:arguments:value-reread-as-syntax'},
         {'script': 'function f() {\n    ./pargs "$0" "$1" "$2"\n}\nf a b\n', 'files': F, 'expect_stdout': _argv(['f', 'a', 'b']), 'area': 'function:arguments'},
         {'script': 'function f() {\n    ./pargs "$0" "[$1]"\n}\nf\n', 'args': ['outer'], 'files': F, 'expect_stdout': _argv(['f', '[]']), 'area': 'function:missing-arguments'},
         {'script': 'function my-f_1 {\n    echo in\n}\nmy-f_1\n', 'files': F, 'expect_stdout': 'in\n', 'area': 'function:header-spelling'},
